@@ -21,7 +21,8 @@ TEXTS = ["alpha", "two words", "béta ü", "😀 astral", "x" * 40, "semi;colon"
 TEXT_DELIM = ["a,b", "comma, space", ",lead", "trail,"]
 TEXT_QUOTE = ['say "hi"', '"quoted"', 'a""b', '"']
 TEXT_BREAK = ["line1\nline2", "cr\rlf", "crlf\r\nend", "\n"]
-NUMS = ["0", "12", "-7", "+3", "3.25", "-0.5", "1,234", "1,234,567.89", "1e5", "2.5E-3", "1_000", " 42 ", "٣", "007", ".5", "5.", "1e-7", "123456789012345"]
+NUMS = ["0", "12", "-7", "+3", "3.25", "-0.5", "1,234", "1,234,567.89", "1e5", "2.5E-3", "1_000", " 42 ", "٣", "007", ".5", "5.", "1e-7", "123456789012345",
+        "9.1093837e-31", "-1.602176634e-19", "2.5E-16", "0.000000123456789012", "1e22", "6.02214076e23", "-0.0"]
 SPECIAL = ["nan", "NaN", "inf", "-inf", "Infinity", "-INFINITY", "+nan", "1e400", "-1e999", "iNf"]
 WS_TEXTS = ["  padded  ", "double  space", " lead", "trail ", "a \t b"]
 
